@@ -3,7 +3,8 @@
 (* the OMS amplifier by amplifier.  Configurations: power / gain mode x delta_power_range [0,0,0], [-2,3,0.5],    *)
 (* [-6,0,1], [-1.3,2.2,0.5] (round first, THEN clamp: the bound itself is the offset) x slope 0.3 / 0.5, reference span 20 dB, total design power 10 dBm (0 dBm x 10 channels).              *)
 (* Profiles: ROADM (t0) -> booster -> span -> (inline amplifier -> span)* -> preamp -> ROADM with 1..MaxSpans      *)
-(* spans, raw span losses from LossSet raised to a 10 dB padding, operator settings per amplifier from UserKinds.  *)
+(* spans, raw span losses from LossSet (fibre + connectors + fused + lumped losses inside the fibre) raised to a   *)
+(* 10 dB padding, operator settings per amplifier from UserKinds.                                                  *)
 (*                                                                                                                *)
 (* Two uses: (B1) TLC checks every clause on every reachable design, including profiles with rounding ties, an     *)
 (* automatic VOA, a low extended maximum gain and amplifier -> amplifier (Rich = TRUE); (B2) with Rich = FALSE every complete design is    *)
@@ -32,6 +33,10 @@ FlatLow == cdB(1900)                          \* B1 only: an auto-selected model
 MCLossesQuick    == {cdB(800), cdB(1430), cdB(2310), cdB(2770)}
 MCLossesFull     == {cdB(800), cdB(1430), cdB(2000), cdB(2310), cdB(2770)}
 MCLossesTie      == {cdB(2250)}               \* 0.3 x 2.5 dB = 0.75 dB: a tie for step 0.5 (B1 only)
+\* Span vocabulary: the raw loss of a span = fibre attenuation + connectors (+ EOL) + fused elements + the LUMPED LOSSES
+\* located inside the fibre (splices, taps: Fiber params.lumped_losses); the design must compensate all of it.  Each span
+\* of the grid is a (raw loss, part of it that is lumped inside the fibre) pair:
+LumpIn(raw) == IF raw = cdB(2310) THEN cdB(300) ELSE IF raw = cdB(1430) THEN cdB(150) ELSE 0
 
 MCConfigs == {[mode |-> m, slope |-> s, ref |-> cdB(2000), lo |-> r[1], hi |-> r[2], step |-> r[3],
                prefTot |-> cdB(1000)] :
@@ -56,7 +61,7 @@ UserKinds == {
     U(11, cdB(1800), NONE, cdB(100), 0, FALSE) }              \* gain and VOA, auto-selected model
 
 AmpOf(raw, rawNext, last, u, rich) ==
-    [L |-> IF raw = 0 THEN 0 ELSE MaxI(raw, Pad), raw |-> raw,              \* raw = 0: no span in front of the amplifier
+    [L |-> IF raw = 0 THEN 0 ELSE MaxI(raw, Pad), raw |-> raw, lump |-> LumpIn(raw),              \* raw = 0: no span in front of the amplifier
      Ln |-> IF last \/ rawNext = 0 THEN 0 ELSE MaxI(rawNext, Pad),
      nxt |-> IF last THEN ROADM ELSE IF rawNext = 0 THEN AMP ELSE SPAN,
      inVoa |-> u.inVoa, uGain |-> u.g, uDp |-> u.dp, uVoa |-> u.voa, uVar |-> u.var, kind |-> u.id,
